@@ -580,8 +580,22 @@ func c18Contains(c *Ctx) {
 		r.Undecided("C18-D5", "Weekly.Contains", "-", "anchor not found")
 		return
 	}
-	isConverted := func(v ssa.Value) bool {
+	var isConverted func(v ssa.Value) bool
+	isConverted = func(v ssa.Value) bool {
 		v = core.ResolveCellLoad(v)
+		if prm, isPrm := v.(*ssa.Parameter); isPrm && prm.Parent() != fn {
+			// a helper of Contains: every caller must hand it the converted instant
+			args := core.ArgsOfParam(prm)
+			if len(args) == 0 {
+				return false
+			}
+			for _, a := range args {
+				if !isConverted(a) {
+					return false
+				}
+			}
+			return true
+		}
 		call, _, ok := core.CallResult(v)
 		if !ok || core.CalleeKey(call.Common()) != "(time.Time).In" {
 			return false
@@ -590,7 +604,13 @@ func c18Contains(c *Ctx) {
 		return ok && fr.Type == "schedule.Weekly" && fr.Field == "location"
 	}
 	n := 0
-	for _, call := range core.Calls(fn) {
+	allCalls := core.Calls(fn)
+	for h := range core.StaticReach(fn, 2) {
+		if h != fn && core.PkgOf(h) == "schedule" && !strings.Contains(core.FuncKey(h), "dayRange") {
+			allCalls = append(allCalls, core.Calls(h)...)
+		}
+	}
+	for _, call := range allCalls {
 		switch call.Key {
 		case "(time.Time).Weekday", "(time.Time).Date", "(time.Time).Sub", "(time.Time).Clock", "(time.Time).Hour", "(time.Time).Minute":
 			n++
@@ -610,7 +630,7 @@ func c18Contains(c *Ctx) {
 	nC := 0
 	for _, call := range core.CallsTo(fn, "(*schedule.dayRange).contains") {
 		nC++
-		os := core.Origins(call.Arg(1), core.ProvOpts{Prog: p, Transparent: map[string]bool{"none": true}})
+		os := core.Origins(call.Arg(1), core.ProvOpts{Prog: p, Transparent: map[string]bool{"none": true}, IntoModuleCalls: true, InterprocDepth: 2})
 		clock, elapsed := false, false
 		for _, o := range os {
 			if o.Kind != "call" {
